@@ -458,11 +458,17 @@ class LocalScheduleInterpreter(OneShotTask):
             if _debug: LocalScheduleInterpreter._debug("    - current_time: %r", current_time)
 
         # evaluate the time
-        current_value, next_transition = self.eval(current_date, current_time)
-        if _debug: LocalScheduleInterpreter._debug("    - current_value, next_transition: %r, %r", current_value, next_transition)
+        result = self.eval(current_date, current_time)
+        if result is None:
+            # not in the effective period, look again when the day is over
+            if _debug: LocalScheduleInterpreter._debug("    - not in effective period")
+            next_transition = (24, 0, 0, 0)
+        else:
+            current_value, next_transition = result
+            if _debug: LocalScheduleInterpreter._debug("    - current_value, next_transition: %r, %r", current_value, next_transition)
 
-        ### set the present value
-        self.sched_obj.presentValue = current_value
+            ### set the present value
+            self.sched_obj.presentValue = current_value
 
         # compute the time of the next transition
         transition_time = datetime_to_time(current_date, next_transition)
